@@ -1,11 +1,241 @@
 (* C05 - keyset primitives use the primary key to produce and any enabled key
-   to accept.  Statements only; proofs live in proofs/FactoryProofs.v. *)
+   to accept.  Statements only; proofs live in proofs/FactoryProofs.v.
+
+   Reading guide.  ks : list fentry is the keyset in keyset order; an fentry
+   carries the entry's id, status, primary flag, the key's prefix type, the id
+   the key object carries, whether its primitive is a legacy (non-full) one,
+   and a token for the key material.  `valid e x` is an arbitrary predicate
+   "the primitive the factory stores for entry e accepts the whole input x";
+   every theorem holds for all such predicates, all keysets and all inputs. *)
 From Coq Require Import List NArith Bool.
 From Tink Require Import Bytes Manager ManagerProofs Prefix Factory FactoryProofs.
 Import ListNotations.
 Open Scope N_scope.
 
-Theorem C05_prefix_length :
-  forall pt id, length (prefix_bytes pt id) = if is_raw pt then 0%nat else 5%nat.
-Proof. exact prefix_bytes_length. Qed.
-Print Assumptions C05_prefix_length.
+(* Output prefixes: TINK 0x01||be32(id), CRUNCHY and LEGACY 0x00||be32(id), RAW
+   empty; 5 bytes or none; for uint32 ids equal non-empty prefixes mean equal
+   ids and equal start bytes (TINK and CRUNCHY of one id differ). *)
+Theorem C05_prefix_format :
+  forall id,
+    prefix_bytes PTink id = 1 :: be_bytes 4 id /\
+    prefix_bytes PCrunchy id = 0 :: be_bytes 4 id /\
+    prefix_bytes PLegacy id = 0 :: be_bytes 4 id /\
+    prefix_bytes PRaw id = [] /\
+    (forall pt, length (prefix_bytes pt id) = if is_raw pt then 0%nat else 5%nat) /\
+    (forall p1 p2 id', is_raw p1 = false -> id < 4294967296 -> id' < 4294967296 ->
+        prefix_bytes p1 id = prefix_bytes p2 id' -> id = id' /\ start_byte p1 = start_byte p2).
+Proof.
+  intros id. do 4 (split; [reflexivity|]). split.
+  - intros pt. apply prefix_bytes_length.
+  - intros p1 p2 id' R A B H. exact (prefix_bytes_inj p1 p2 id id' R A B H).
+Qed.
+Print Assumptions C05_prefix_format.
+
+(* The prefix map built by the factory loop, queried as PrimitivesMatchingPrefix
+   and iterated, is exactly: enabled non-RAW entries whose prefix equals the
+   first 5 bytes of the input (keyset order), then enabled RAW entries. *)
+Theorem C05_prefix_map_is_candidate_list :
+  forall ks x, pm_matching (pm_build ks) x = candidates ks x.
+Proof. exact pm_matching_candidates. Qed.
+Print Assumptions C05_prefix_map_is_candidate_list.
+
+(* accept_iff: the wrapped primitive accepts x with entry e  <=>  e is in the
+   keyset, ENABLED, RAW or carrying the first 5 bytes of x as its prefix, x is
+   valid under e, and e is the first such candidate. *)
+Theorem C05_accept_iff :
+  forall (valid : fentry -> bytes -> bool) ks x e,
+    accept valid ks x = Some e <->
+    In e ks /\ fenabled e = true /\ (fraw e = true \/ prefix_of e = firstn 5 x)
+    /\ valid e x = true
+    /\ exists l1 l2, candidates ks x = l1 ++ e :: l2 /\ valid e x = true
+                     /\ forall y, In y l1 -> valid y x = false.
+Proof. exact accept_iff. Qed.
+Print Assumptions C05_accept_iff.
+
+(* The property as stated: accepted  <=>  valid under SOME enabled key of the
+   keyset whose prefix the input carries or which has no prefix. *)
+Theorem C05_accepts_iff_valid_under_enabled_key :
+  forall (valid : fentry -> bytes -> bool) ks x,
+    (exists e, accept valid ks x = Some e) <->
+    exists e, In e ks /\ fenabled e = true
+              /\ (fraw e = true \/ prefix_of e = firstn 5 x) /\ valid e x = true.
+Proof. exact accept_exists_iff. Qed.
+Print Assumptions C05_accepts_iff_valid_under_enabled_key.
+
+(* Inputs valid only under DISABLED / DESTROYED keys are rejected ... *)
+Theorem C05_rejects_outputs_of_non_enabled_keys :
+  forall (valid : fentry -> bytes -> bool) ks x,
+    (forall e, In e ks -> valid e x = true -> fenabled e = false) -> accept valid ks x = None.
+Proof. exact reject_if_valid_only_under_non_enabled. Qed.
+Print Assumptions C05_rejects_outputs_of_non_enabled_keys.
+
+(* ... non-enabled entries are as good as absent, and keys that are not in the
+   keyset (removed, foreign) cannot influence the verdict at all: it depends
+   on validity under the enabled entries of the keyset only. *)
+Theorem C05_only_enabled_keyset_keys_matter :
+  forall (valid valid' : fentry -> bytes -> bool) ks x,
+    accept valid ks x = accept valid (enabled_entries ks) x /\
+    ((forall e, In e ks -> fenabled e = true -> valid e x = valid' e x) ->
+     accept valid ks x = accept valid' ks x).
+Proof. intros. split; [apply accept_ignores_non_enabled | apply accept_ext]. Qed.
+Print Assumptions C05_only_enabled_keyset_keys_matter.
+
+(* Monitoring: a success is logged under the id of the accepting entry; with
+   distinct ids that id identifies the entry. *)
+Theorem C05_logged_id_names_the_accepting_key :
+  forall (valid : fentry -> bytes -> bool) ks x id,
+    (logged (accept valid ks x) = Some id <-> exists e, accept valid ks x = Some e /\ fid e = id) /\
+    (NoDup (map fid ks) -> logged (accept valid ks x) = Some id ->
+     forall e, In e ks -> fid e = id -> accept valid ks x = Some e).
+Proof.
+  intros. split; [apply logged_iff|]. intros ND L e He Hid. eapply logged_identifies; eauto.
+Qed.
+Print Assumptions C05_logged_id_names_the_accepting_key.
+
+(* MAC factory: tags of 5 bytes or fewer are refused, otherwise the rule is the
+   common one (the second pass over the RAW keys changes nothing). *)
+Theorem C05_mac_rule :
+  forall (valid : fentry -> bytes -> bool) ks x,
+    mac_accept valid ks x = if Nat.leb (length x) 5 then None else accept valid ks x.
+Proof. exact mac_accept_eq. Qed.
+Print Assumptions C05_mac_rule.
+
+(* JWT MAC / JWT verifier / streaming AEAD: every enabled key is tried in
+   keyset order, whatever its prefix type. *)
+Theorem C05_try_every_enabled_key_rule :
+  forall (valid : fentry -> bytes -> bool) ks x,
+    (forall e, accept_all valid ks x = Some e <->
+       In e ks /\ fenabled e = true /\ valid e x = true /\
+       exists l1 l2, enabled_entries ks = l1 ++ e :: l2 /\ valid e x = true
+                     /\ forall y, In y l1 -> valid y x = false) /\
+    (accept_all valid ks x = None <-> forall e, In e ks -> fenabled e = true -> valid e x = false).
+Proof. intros. split; [intros e; apply accept_all_iff | apply accept_all_none_iff]. Qed.
+Print Assumptions C05_try_every_enabled_key_rule.
+
+(* PRF set: the map holds exactly the enabled keys under their ids, PrimaryID is
+   the primary's id and ComputePrimaryPRF uses the primary. *)
+Theorem C05_prf_set :
+  forall ks, wf_keyset ks ->
+    (forall id e, assoc_get id (prf_map ks) = Some e <-> In e ks /\ fenabled e = true /\ fid e = id) /\
+    exists p, In p ks /\ fprim p = true /\ fenabled p = true
+              /\ prf_primary_id ks = fid p /\ prf_primary ks = Some p.
+Proof.
+  intros ks W. split; [intros; apply prf_map_get; apply (wk_nodup ks W) | apply prf_primary_wf; auto].
+Qed.
+Print Assumptions C05_prf_set.
+
+(* The executable selection with the legacy adapters of each factory (checked
+   Go slices) never slices out of range and equals the abstract rule applied
+   to the adapter's own validity predicate. *)
+Theorem C05_adapters_never_panic :
+  forall (raw_valid : fentry -> bytes -> bytes -> bool) ad ks x d,
+    accept_o raw_valid ad ks x d = Ok (accept (entry_valid_b raw_valid ad d) ks x) /\
+    mac_accept_o raw_valid ks x d = Ok (mac_accept (entry_valid_b raw_valid AdCheckLegacy d) ks x).
+Proof. intros. split; [apply accept_o_eq | apply mac_accept_o_eq]. Qed.
+Print Assumptions C05_adapters_never_panic.
+
+(* produce_uses_primary: in a well-formed keyset both ways the factories pick
+   the primary (loop over enabled entries / handle.Primary()) yield the unique
+   primary entry, which is ENABLED; the output is produced with it, logged
+   under its id, and - given that full primitives emit their own prefix -
+   carries the primary's prefix 0x01/0x00 || be32(id of the primary). *)
+Theorem C05_produce_uses_primary :
+  forall (raw_produce : fentry -> bytes -> bytes) pk ks m, wf_keyset ks ->
+    exists p, In p ks /\ fprim p = true /\ fenabled p = true
+      /\ (forall q, In q ks -> fprim q = true -> q = p)
+      /\ produce raw_produce pk (primary_loop ks) m = Some (fid p, entry_produce raw_produce pk p m)
+      /\ produce raw_produce pk (primary_handle ks) m = Some (fid p, entry_produce raw_produce pk p m)
+      /\ ((flegacy p = false -> exists body, raw_produce p m = prefix_of p ++ body) ->
+          exists body, entry_produce raw_produce pk p m = prefix_bytes (fpt p) (fid p) ++ body).
+Proof.
+  intros raw_produce pk ks m W.
+  destruct (produce_primary raw_produce pk ks m W) as (p & A & B & C & D & E & F).
+  exists p. repeat split; auto. intros H.
+  rewrite <- (wf_prefix_of ks p W A). apply entry_produce_carries_prefix. exact H.
+Qed.
+Print Assumptions C05_produce_uses_primary.
+
+(* Distinct ids => at most one prefixed candidate per 5-byte prefix; the key
+   whose prefix the input carries is the one that answers when the input is
+   valid under it; a RAW key answers only when no such key accepts. *)
+Theorem C05_distinct_ids_one_prefixed_candidate :
+  forall (valid : fentry -> bytes -> bool) ks x, wf_keyset ks ->
+    (length (filter (cand_prefixed x) ks) <= 1)%nat /\
+    (forall e, In e ks -> fenabled e = true -> fraw e = false ->
+               prefix_of e = firstn 5 x -> valid e x = true -> accept valid ks x = Some e) /\
+    (forall e, accept valid ks x = Some e -> fraw e = true ->
+       forall e', In e' ks -> fenabled e' = true -> fraw e' = false ->
+                  prefix_of e' = firstn 5 x -> valid e' x = false).
+Proof.
+  intros valid ks x W. split; [apply prefixed_candidate_unique; auto|]. split.
+  - intros e. apply accept_prefixed; auto.
+  - intros e. apply accept_raw_only_after_prefixed.
+Qed.
+Print Assumptions C05_distinct_ids_one_prefixed_candidate.
+
+(* rotation_then_accept: composition with the C11 manager model.  After ANY
+   history of Add/AddKey/SetPrimary/Enable/Disable/Delete/Handle/
+   NewManagerFromHandle (uint32 ids), starting from an empty manager or any
+   well-formed handle, every handle obtained is a well-formed keyset for the
+   factories whatever prefix variants and primitive kinds its keys have; so
+   the unconditional theorems above apply to it and so do the ones that need
+   well-formedness: the output is produced by the unique, enabled primary;
+   the key named by the prefix answers; logged ids identify keys. *)
+Theorem C05_rotation_then_accept :
+  forall h0 tape ops s' rs h (cls : entry -> ptype) (leg : entry -> bool),
+    (forall h, h0 = Some h -> wf_handle h) -> (forall h, h0 = Some h -> ents_bounded h) ->
+    Forall (fun x => x < 4294967296) tape -> Forall op_bounded ops ->
+    run (init_state h0 tape) ops = (s', rs) -> In (RHandle h) rs ->
+    let ks := map (lift cls leg) h in
+    wf_keyset ks /\
+    (exists p, In p ks /\ fprim p = true /\ fenabled p = true
+               /\ primary_loop ks = Some p /\ primary_handle ks = Some p
+               /\ prf_primary_id ks = fid p) /\
+    (forall (valid : fentry -> bytes -> bool) x,
+       (forall e, accept valid ks x = Some e ->
+                  In e ks /\ fenabled e = true /\ (fraw e = true \/ prefix_of e = firstn 5 x)
+                  /\ valid e x = true) /\
+       ((forall e, In e ks -> valid e x = true -> fenabled e = false) -> accept valid ks x = None) /\
+       (forall e, In e ks -> fenabled e = true -> fraw e = false -> prefix_of e = firstn 5 x ->
+                  valid e x = true -> accept valid ks x = Some e /\ logged (accept valid ks x) = Some (fid e))).
+Proof.
+  intros h0 tape ops s' rs h cls leg W B T O R Hin ks.
+  assert (WK : wf_keyset ks) by (eapply rotation_wf; eauto).
+  split; [exact WK|]. split.
+  - destruct (wf_primary ks WK) as (p & A & B1 & C & _ & E & F).
+    destruct (prf_primary_wf ks WK) as (p' & A' & B' & _ & I & _).
+    exists p. repeat split; auto.
+    destruct (wf_primary ks WK) as (q & _ & _ & _ & U & _ & _).
+    rewrite I. f_equal. rewrite (U p' A' B'). symmetry. apply U; auto.
+  - intros valid x. split; [|split].
+    + intros e H. apply accept_iff in H. tauto.
+    + apply reject_if_valid_only_under_non_enabled.
+    + intros e A B1 C D E. rewrite (accept_prefixed valid ks x e WK A B1 C D E). auto.
+Qed.
+Print Assumptions C05_rotation_then_accept.
+
+(* Non-vacuity: a concrete well-formed keyset (TINK id 5 primary, CRUNCHY id 5
+   impossible next to it so CRUNCHY id 7, a disabled TINK key, a RAW key), a
+   concrete validity predicate, and a concrete manager history. *)
+Example C05_nonvacuous :
+  let ks := [mkF 5 Enabled true PTink 5 false 1; mkF 7 Enabled false PCrunchy 7 true 2;
+             mkF 9 Disabled false PTink 9 false 3; mkF 4294967295 Enabled false PRaw 0 false 4] in
+  let valid := fun e (x : bytes) => N.eqb (fkey e) (last x 0) in
+  wf_keyset ks /\
+  accept valid ks [1; 0; 0; 0; 5; 1] = Some (mkF 5 Enabled true PTink 5 false 1) /\
+  accept valid ks [0; 0; 0; 0; 7; 2] = Some (mkF 7 Enabled false PCrunchy 7 true 2) /\
+  accept valid ks [1; 0; 0; 0; 9; 3] = None /\
+  accept valid ks [1; 0; 0; 0; 5; 4] = Some (mkF 4294967295 Enabled false PRaw 0 false 4) /\
+  accept valid ks [0; 0; 0; 0; 5; 1] = None /\
+  (let h := [mkEntry 5 Enabled true (Some 5) 1; mkEntry 7 Enabled false None 2] in
+   snd (run (init_state None [7]) [OAddKey (Some 5) 1; OSetPrimary 5; OAddKey None 2; OHandle])
+   = [RId 5; ROk; RId 7; RHandle h]).
+Proof.
+  split; [|repeat split; vm_compute; reflexivity].
+  constructor.
+  - simpl. repeat constructor; simpl; intuition discriminate.
+  - reflexivity.
+  - intros e [<-|[<-|[<-|[<-|[]]]]]; simpl; intros; try discriminate; reflexivity.
+  - intros e [<-|[<-|[<-|[<-|[]]]]]; simpl; intros; try discriminate; reflexivity.
+  - intros e [<-|[<-|[<-|[<-|[]]]]]; simpl; reflexivity.
+Qed.
